@@ -532,6 +532,7 @@ func (s *Server) RpcAcceptingState(e *am.Event) {
 			}))
 		})
 		srv.OnConnect(func(client *rpc2.Client) {
+			verifhook.Point("srv.onconnect")
 			s.Mach.EvAdd1(e, ssS.ClientConnected, Pass(&AClientConnected{
 				Client: client,
 			}))
